@@ -251,7 +251,14 @@ def run_case(case, r):
     for o in offsets:
         P = V + o
         C = ref_coord(P)
+        C_keep = C.copy()
         got = cs.voxel(C)
+        # the caller's coordinate array is an argument, not a work buffer: unchanged, and a second
+        # conversion of the same array gives the same voxels (also as a typed Coordinate array)
+        r.check(np.array_equal(C, C_keep), f"C01/voxel-batch/{tag}/input-unchanged", "voxel() leaves the coordinate array it was given unchanged", offset=o)
+        Ct = darsia.make_coordinate(C_keep.copy())
+        g1, g2 = np.asarray(cs.voxel(Ct)), np.asarray(cs.voxel(Ct))
+        r.check(np.array_equal(np.asarray(Ct), C_keep) and np.array_equal(g1, g2), f"C01/voxel-batch/{tag}/input-unchanged", "a typed coordinate array converts to the same voxels every time it is converted", offset=o)
         ok = isinstance(got, darsia.VoxelArray) and np.array_equal(np.asarray(got), V)
         if not ok:
             bad = int(np.argmax(np.any(np.asarray(got) != V, axis=1))) if np.asarray(got).shape == V.shape else -1
